@@ -47,6 +47,7 @@ func main() {
 	} else if err := os.MkdirAll(*dir, 0o755); err != nil {
 		fatal2("%v", err)
 	}
+	debug.SetPanicOnFault(true) // a read of an unmapped page becomes a recoverable panic (per goroutine)
 	r := rand.New(rand.NewSource(*seed))
 	installValidator()
 	switch cmd {
@@ -57,6 +58,8 @@ func main() {
 		runLifeProfile(l, *profile, *n, *steps)
 		tr.Close()
 		fmt.Printf("events=%d\n", tr.N)
+	case "ctxpool":
+		runCtxPool(*in, *tables, *dir, *out)
 	case "dictiter":
 		runDictIter(*in, *tables, *dir, *out)
 	case "dvvisit":
@@ -96,6 +99,12 @@ func runLifeProfile(l *Life, profile string, n, steps int) {
 		case "lean":
 			p = LeanProfile()
 			l.light = true
+		case "readstress":
+			p = RichProfile()
+			p.MinDocs, p.MaxDocs = 3, 12
+			p.Syn = true
+			l.ReadStress(&p, 8, steps, fmt.Sprintf("%s-%d", profile, i))
+			continue
 		case "buildseq":
 			l.BuildSeqScenario(steps, fmt.Sprintf("%s-%d", profile, i))
 			continue
